@@ -4,6 +4,7 @@ import (
 	"bytes"
 	"encoding/json"
 	"fmt"
+	"reflect"
 
 	"github.com/google/jsonschema-go/jsonschema"
 )
@@ -90,7 +91,11 @@ func init() {
 		if s == nil {
 			return nil, fmt.Errorf("nil root")
 		}
-		return roundTrip(s, a.Insts), nil
+		twin, _, _ := buildSchemas(a.Desc)
+		res := roundTrip(s, a.Insts)
+		// Marshal (and the Resolve / Validate calls of the round trip) must leave the Schema value as it was (C14)
+		res["untouched"] = reflect.DeepEqual(s, twin)
+		return res, nil
 	})
 	// roundtrip-doc {doc, insts}: a schema document
 	register("roundtrip-doc", func(args json.RawMessage) (any, error) {
@@ -151,8 +156,45 @@ func init() {
 		_, e1 := (&jsonschema.Schema{AllOf: []*jsonschema.Schema{s, c}}).Resolve(nil)
 		res["alone_resolves"] = e0 == nil
 		res["both_resolve"] = e1 == nil
+		// frame, in place: both trees grow their schema-valued slices (an append within spare capacity) and the clone inserts into its
+		// schema-valued maps; the original must then marshal as it does after its own appends alone
+		if err1 == nil {
+			twin, _, _ := buildSchemas(a.Desc)
+			pt := map[*jsonschema.Schema]bool{}
+			schemaPointers(twin, pt)
+			growSlices := func(ps map[*jsonschema.Schema]bool, title string) {
+				for p := range ps {
+					v := reflect.ValueOf(p).Elem()
+					for i := 0; i < v.NumField(); i++ {
+						f := v.Field(i)
+						if f.Type() == reflect.TypeFor[[]*jsonschema.Schema]() && f.Cap() > f.Len() {
+							f.Set(reflect.Append(f, reflect.ValueOf(&jsonschema.Schema{Title: title})))
+						}
+					}
+				}
+			}
+			growSlices(pt, "orig")
+			growSlices(ps, "orig")
+			want, errw := json.Marshal(twin)
+			growSlices(pc, "clone")
+			for p := range pc {
+				v := reflect.ValueOf(p).Elem()
+				for i := 0; i < v.NumField(); i++ {
+					f := v.Field(i)
+					if f.Type() == reflect.TypeFor[map[string]*jsonschema.Schema]() && !f.IsNil() {
+						f.SetMapIndex(reflect.ValueOf("#mut"), reflect.ValueOf(&jsonschema.Schema{Title: "clone"}))
+					}
+				}
+			}
+			got, errg := json.Marshal(s)
+			res["frame_inplace"] = (errw != nil && errg != nil) || (errw == nil && errg == nil && bytes.Equal(want, got))
+		}
 		// frame: mutate every Schema object of the clone; the original must marshal as before
 		if err1 == nil {
+			s, _, _ = buildSchemas(a.Desc)
+			c = s.CloneSchemas()
+			pc = map[*jsonschema.Schema]bool{}
+			schemaPointers(c, pc)
 			for p := range pc {
 				p.Title = p.Title + "#mut"
 				p.Required = append([]string{"mut"}, p.Required...)
